@@ -11,6 +11,7 @@ import builtins
 import datetime as _dt
 import io
 import os as _os
+import pathlib as _pathlib
 import posixpath
 import shutil as _shutil
 import sys
@@ -162,15 +163,103 @@ class OsProxy:
         return self._disk.fdopen(fd, *a, **kw)
 
     def close(self, fd):
-        raw = self._disk.fds.get(fd)
+        raw = self._disk.fds.pop(fd, None)
         if raw is not None:
             raw.close()
 
     def access(self, p, mode, **kw):
         return self._disk.exists(self._disk._p(p))
 
+    def open(self, p, flags, mode=0o777, **kw):
+        """Low-level open: directories (for fsync of the directory) and
+        plain files."""
+        import errno
+        from .simdisk import SimRaw, sim_oserror
+        d = self._disk
+        p = d._p(p)
+        if p in d.dirs:
+            fd = d.next_fd
+            d.next_fd += 1
+            d.fds[fd] = _DirFd(p, fd)
+            d.step("open", p, 0, False)
+            return fd
+        inode = d.files.get(p)
+        creating = bool(flags & _os.O_CREAT)
+        d.step("open", p, 0, (inode is None and creating) or (
+            inode is not None and bool(flags & _os.O_TRUNC)
+            and len(inode.data) > 0))
+        if inode is None:
+            if not creating:
+                raise sim_oserror(errno.ENOENT, "No such file or directory",
+                                  p)
+            d._check_parent(p)
+            inode = d._new_inode(mode & 0o777)
+            d.files[p] = inode
+        elif flags & _os.O_EXCL and creating:
+            raise sim_oserror(errno.EEXIST, "File exists", p)
+        if flags & _os.O_TRUNC:
+            del inode.data[:]
+        acc = flags & (_os.O_RDONLY | _os.O_WRONLY | _os.O_RDWR)
+        fd = d.next_fd
+        d.next_fd += 1
+        raw = SimRaw(d, p, inode, acc != _os.O_WRONLY, acc != _os.O_RDONLY,
+                     bool(flags & _os.O_APPEND), fd)
+        d.fds[fd] = raw
+        d.live_raws.append(raw)
+        return fd
+
+    def write(self, fd, data):
+        return self._disk.fds[fd].write(data)
+
+    def read(self, fd, n):
+        raw = self._disk.fds[fd]
+        buf = bytearray(n)
+        k = raw.readinto(buf)
+        return bytes(buf[:k])
+
+    def lseek(self, fd, pos, how):
+        return self._disk.fds[fd].seek(pos, how)
+
+    def ftruncate(self, fd, n):
+        return self._disk.fds[fd].truncate(n)
+
+    def truncate(self, p, n):
+        if isinstance(p, int):
+            return self.ftruncate(p, n)
+        d = self._disk
+        p = d._p(p)
+        import errno
+        from .simdisk import sim_oserror
+        if p not in d.files:
+            raise sim_oserror(errno.ENOENT, "No such file or directory", p)
+        data = d.files[p].data
+        d.step("truncate", p, 0, n != len(data))
+        if n < len(data):
+            del data[n:]
+        else:
+            data.extend(b"\0" * (n - len(data)))
+
+    def sync(self):
+        return None
+
+    def scandir(self, p="."):
+        raise SeamEscape("os.scandir")
+
     def __getattr__(self, name):
         raise SeamEscape("os.%s" % name)
+
+
+class _DirFd:
+    """A descriptor opened on a directory (only fsync / close make sense)."""
+
+    def __init__(self, path, fd):
+        self.path = path
+        self.fd = fd
+        self.dead = False
+        self.inode = None
+
+    def close(self):
+        pass
 
 
 class ShutilProxy:
@@ -209,6 +298,9 @@ class ShutilProxy:
             d.unlink(src)
         return dst
 
+    def copyfileobj(self, fsrc, fdst, length=0):
+        return _shutil.copyfileobj(fsrc, fdst, length or 64 * 1024)
+
     def __getattr__(self, name):
         raise SeamEscape("shutil.%s" % name)
 
@@ -227,8 +319,105 @@ class TempfileProxy:
     def gettempdir(self):
         return TMP_DIR
 
+    def mkdtemp(self, suffix=None, prefix=None, dir=None):
+        d = self._disk
+        name = d._tmp_name(prefix, suffix, dir)
+        d.step("mktemp", name, 0, True)
+        d.dirs.add(name)
+        return name
+
+    def TemporaryFile(self, *a, **kw):
+        kw["delete"] = True
+        return self._disk.named_temporary_file(*a, **kw)
+
     def __getattr__(self, name):
         raise SeamEscape("tempfile.%s" % name)
+
+
+class IoProxy:
+    """Stands in for the ``io`` module: only open() touches the disk."""
+
+    def __init__(self, disk):
+        self._disk = disk
+
+    def open(self, *a, **kw):
+        return self._disk.open(*a, **kw)
+
+    def __getattr__(self, name):
+        return getattr(io, name)
+
+
+def make_sim_path(disk):
+    """pathlib.Path stand-in whose file-system methods use the simulated
+    disk (pure path manipulation is inherited)."""
+    import pathlib
+
+    class SimPath(pathlib.PurePosixPath):
+        def _s(self):
+            return str(self)
+
+        def exists(self):
+            return disk.exists(disk._p(self._s()))
+
+        def is_file(self):
+            return disk._p(self._s()) in disk.files
+
+        def is_dir(self):
+            return disk._p(self._s()) in disk.dirs
+
+        def unlink(self, missing_ok=False):
+            return disk.unlink(self._s(), missing_ok=missing_ok)
+
+        def rename(self, target):
+            disk.rename(self._s(), _os.fspath(target))
+            return type(self)(_os.fspath(target))
+
+        replace = rename
+
+        def open(self, mode="r", buffering=-1, encoding=None, errors=None,
+                 newline=None):
+            return disk.open(self._s(), mode, buffering, encoding, errors,
+                             newline)
+
+        def touch(self, mode=0o666, exist_ok=True):
+            with disk.open(self._s(), "a"):
+                pass
+
+        def stat(self):
+            return OsProxy(disk).stat(self._s())
+
+        def mkdir(self, mode=0o777, parents=False, exist_ok=False):
+            return disk.makedirs(self._s(), mode, exist_ok)
+
+        def read_bytes(self):
+            with disk.open(self._s(), "rb") as f:
+                return f.read()
+
+        def write_bytes(self, data):
+            with disk.open(self._s(), "wb") as f:
+                return f.write(data)
+
+        def read_text(self, encoding=None, errors=None):
+            with disk.open(self._s(), "r", encoding=encoding,
+                           errors=errors) as f:
+                return f.read()
+
+        def write_text(self, data, encoding=None, errors=None, newline=None):
+            with disk.open(self._s(), "w", encoding=encoding, errors=errors,
+                           newline=newline) as f:
+                return f.write(data)
+
+        def resolve(self, strict=False):
+            return self
+
+        def absolute(self):
+            return self
+
+        def chmod(self, mode):
+            return disk.chmod(self._s(), mode)
+
+    SimPath.__name__ = "Path"
+    return SimPath
 
 
 # ---------------------------------------------------------------- clock
@@ -377,6 +566,11 @@ def _discover():
     by_identity = [
         (_os, "os"), (_shutil, "shutil"), (_tempfile, "tempfile"),
         (_time, "time"), (builtins.open, "open"), (io.open, "open"),
+        (io, "io"), (_pathlib.Path, "Path"),
+        (_tempfile.mkdtemp, "mkdtemp"),
+        (_tempfile.TemporaryFile, "TemporaryFile"),
+        (_os.truncate, "os.truncate"), (_os.open, "os.open"),
+        (_shutil.copyfileobj, "shutil.copyfileobj"),
         (_tempfile.NamedTemporaryFile, "NamedTemporaryFile"),
         (_tempfile.mkstemp, "mkstemp"),
         (_tempfile.gettempdir, "gettempdir"),
@@ -422,6 +616,10 @@ def _activate(disk, clock):
     tmp = TimeProxy(clock)
     table = {
         "os": osp, "shutil": shp, "tempfile": tfp, "time": tmp,
+        "io": IoProxy(disk), "Path": make_sim_path(disk),
+        "mkdtemp": tfp.mkdtemp, "TemporaryFile": tfp.TemporaryFile,
+        "os.truncate": osp.truncate, "os.open": osp.open,
+        "shutil.copyfileobj": shp.copyfileobj,
         "open": disk.open, "NamedTemporaryFile": disk.named_temporary_file,
         "mkstemp": disk.mkstemp, "gettempdir": tfp.gettempdir,
         "os.fsync": osp.fsync, "os.replace": osp.replace,
